@@ -1,0 +1,135 @@
+//go:build verif
+// +build verif
+
+package raft
+
+import (
+	"errors"
+	"net"
+	"runtime"
+	"sync"
+	"sync/atomic"
+	"time"
+)
+
+// VerifBackOff exposes backOff (util.go) for the timing correspondence.
+func VerifBackOff(round uint64, max time.Duration) time.Duration { return backOff(round, max) }
+
+// NotifyStress calls leader.notifyFlr `rounds` times on the state-loop side while one goroutine per
+// replication keeps taking updates out of leaderUpdateCh, the way the replication goroutines do. It
+// reports how many calls completed and whether the caller got stuck (no progress within patience).
+// A stuck call leaves its goroutine blocked; the process is expected to exit afterwards.
+func (n *VerifNode) NotifyStress(rounds int, patience time.Duration) (done int, stuck bool) {
+	if n.R.state != Leader || len(n.l.repls) == 0 {
+		return 0, false
+	}
+	stop := make(chan struct{})
+	var wg sync.WaitGroup
+	for _, repl := range n.l.repls {
+		wg.Add(1)
+		go func(ch chan leaderUpdate) {
+			defer wg.Done()
+			for i := 0; ; i++ {
+				select {
+				case <-stop:
+					return
+				case <-ch:
+				default:
+					if i%3 == 0 {
+						runtime.Gosched()
+					}
+				}
+			}
+		}(repl.leaderUpdateCh)
+	}
+	var progress int64
+	fin := make(chan struct{})
+	go func() {
+		defer close(fin)
+		for i := 0; i < rounds; i++ {
+			n.l.notifyFlr(i%7 == 0)
+			atomic.AddInt64(&progress, 1)
+		}
+	}()
+	last, lastAt := int64(-1), time.Now()
+	tick := time.NewTicker(20 * time.Millisecond)
+	defer tick.Stop()
+	for {
+		select {
+		case <-fin:
+			close(stop)
+			wg.Wait()
+			return int(atomic.LoadInt64(&progress)), false
+		case <-tick.C:
+			p := atomic.LoadInt64(&progress)
+			if p != last {
+				last, lastAt = p, time.Now()
+			} else if time.Since(lastAt) > patience {
+				close(stop)
+				wg.Wait()
+				return int(p), true
+			}
+		}
+	}
+}
+
+// RunRetry runs the real replication.runLoop against a peer that cannot be reached (every dial fails at
+// once) with heartbeat timeout hb, until `dials` attempts were made or the watchdog expires, and returns
+// the time between consecutive attempts.
+func (v *VerifRepl) RunRetry(hb time.Duration, dials int, watchdog time.Duration) (gaps []time.Duration, end string) {
+	r := v.r
+	r.hbTimeout = hb
+	r.stopCh = make(chan struct{})
+	var mu sync.Mutex
+	var at []time.Time
+	reached := make(chan struct{})
+	r.connPool = &connPool{
+		src: r.connPool.src, cid: r.connPool.cid, nid: r.connPool.nid, resolver: r.connPool.resolver, max: 1,
+		dialFn: func(network, address string, timeout time.Duration) (net.Conn, error) {
+			mu.Lock()
+			at = append(at, time.Now())
+			if len(at) == dials {
+				close(reached)
+			}
+			mu.Unlock()
+			return nil, errors.New("verif: peer unreachable")
+		},
+	}
+	done := make(chan struct{})
+	go func() {
+		defer close(done)
+		defer func() { _ = recover() }()
+		r.runLoop(v.req)
+	}()
+	drain := make(chan struct{})
+	go func() {
+		for {
+			select {
+			case <-v.upCh:
+			case <-drain:
+				return
+			}
+		}
+	}()
+	select {
+	case <-reached:
+		end = "dials"
+	case <-done:
+		end = "returned"
+	case <-time.After(watchdog):
+		end = "watchdog"
+	}
+	close(r.stopCh)
+	select {
+	case <-done:
+	case <-time.After(watchdog):
+		end += "+stuck"
+	}
+	close(drain)
+	mu.Lock()
+	defer mu.Unlock()
+	for i := 1; i < len(at); i++ {
+		gaps = append(gaps, at[i].Sub(at[i-1]))
+	}
+	return gaps, end
+}
